@@ -332,4 +332,26 @@ pub fn possible_intersection<F>(""")]),
     B('sd-post-removal-nested-if-let', ['C13', 'C06', 'C14', 'C09'], [(SD, "                if let (Some(prev), Some(next)) = (maybe_prev, maybe_next) {", "                if let (Some(prev), Some(next)) = (&maybe_prev, &maybe_next) {"), (SD, "                    possible_intersection(&prev, &next, event_queue);", "                    possible_intersection(prev, next, event_queue);")]),
     B('sd-rightbound-if', ['C05', 'C09', 'C13', 'C08', 'C10'], [(SD, "    let rightbound = sbbox.max.x.min(cbbox.max.x);", "    let rightbound = if sbbox.max.x < cbbox.max.x { sbbox.max.x } else { cbbox.max.x };")]),
     B('sd-rc-clone-explicit', ['C13', 'C06', 'C14', 'C09', 'C12'], [(SD, "        sorted_events.push(event.clone());", "        sorted_events.push(Rc::clone(&event));")]),
+    # ---- batch of behaviour-preserving rewrites (possible_intersection, divide_segment, connect_edges, process_polygon)
+    B('pi-others-two-matches', ['C04', 'C06', 'C13', 'C14', 'C16', 'C03', 'C01'], [('lib/src/boolean/possible_intersection.rs', '    let (other1, other2) = match (se1.get_other_event(), se2.get_other_event()) {\n        (Some(other1), Some(other2)) => (other1, other2),\n        _ => return 0,\n    };\n', '    let other1 = match se1.get_other_event() {\n        Some(other1) => other1,\n        None => return 0,\n    };\n    let other2 = match se2.get_other_event() {\n        Some(other2) => other2,\n        None => return 0,\n    };\n')]),
+    B('pi-left-coincide-redundant-flag', ['C04', 'C06', 'C13', 'C14', 'C16', 'C03', 'C01'], [('lib/src/boolean/possible_intersection.rs', '                if left_coincide && !right_coincide {', '                if !right_coincide {')]),
+    B('pi-edge-type-let', ['C04', 'C06', 'C13', 'C14', 'C16', 'C03', 'C01'], [('lib/src/boolean/possible_intersection.rs', '                if se1.is_in_out() == se2.is_in_out() {\n                    se1.set_edge_type(EdgeType::SameTransition)\n                } else {\n                    se1.set_edge_type(EdgeType::DifferentTransition)\n                }\n', '                let twin_type = if se1.is_in_out() == se2.is_in_out() {\n                    EdgeType::SameTransition\n                } else {\n                    EdgeType::DifferentTransition\n                };\n                se1.set_edge_type(twin_type);\n')]),
+    B('pi-events-with-capacity', ['C04', 'C06', 'C13', 'C14', 'C16', 'C03', 'C01'], [('lib/src/boolean/possible_intersection.rs', '            let mut events = Vec::new();', '            let mut events = Vec::with_capacity(4);')]),
+    B('pi-flags-from-comparisons', ['C04', 'C06', 'C13', 'C14', 'C16', 'C03', 'C01'], [('lib/src/boolean/possible_intersection.rs', '            let mut left_coincide = false;\n            let mut right_coincide = false;\n\n            if se1.point == se2.point {\n                left_coincide = true\n            } else if se1 < se2 {', '            let left_coincide = se1.point == se2.point;\n            let right_coincide = other1.point == other2.point;\n\n            if left_coincide {\n            } else if se1 < se2 {'), ('lib/src/boolean/possible_intersection.rs', '            if other1.point == other2.point {\n                right_coincide = true\n            } else if other1 < other2 {', '            if right_coincide {\n            } else if other1 < other2 {')]),
+    B('ds-push-order-swapped', ['C04', 'C13', 'C16', 'C03', 'C08'], [('lib/src/boolean/divide_segment.rs', '    queue.push(l);\n    queue.push(r);', '    queue.push(r);\n    queue.push(l);')]),
+    B('ds-if-let-other', ['C04', 'C13', 'C16', 'C03', 'C08'], [('lib/src/boolean/divide_segment.rs', '    let se_r = match se_l.get_other_event() {\n        Some(se) => se,\n        None => return,\n    };', '    let se_r = if let Some(se) = se_l.get_other_event() {\n        se\n    } else {\n        return;\n    };')]),
+    B('ds-links-before-swap-test', ['C04', 'C13', 'C16', 'C03', 'C08'], [('lib/src/boolean/divide_segment.rs', '    if !l.is_before(&se_r) {\n        se_r.set_left(true);\n        l.set_left(false);\n    }\n\n    se_l.set_other_event(&r);\n    se_r.set_other_event(&l);\n', '    se_l.set_other_event(&r);\n    se_r.set_other_event(&l);\n\n    if !l.is_before(&se_r) {\n        se_r.set_left(true);\n        l.set_left(false);\n    }\n')]),
+    B('ce-order-events-filter-collect', ['C02', 'C04', 'C01', 'C03', 'C12', 'C15'], [('lib/src/boolean/connect_edges.rs', '    let mut result_events: Vec<Rc<SweepEvent<F>>> = Vec::new();\n\n    for event in sorted_events {\n        if (event.is_left() && event.is_in_result())\n            || (!event.is_left() && event.get_other_event().map(|o| o.is_in_result()).unwrap_or(false))\n        {\n            result_events.push(event.clone());\n        }\n    }\n', '    let mut result_events: Vec<Rc<SweepEvent<F>>> = sorted_events\n        .iter()\n        .filter(|event| {\n            (event.is_left() && event.is_in_result())\n                || (!event.is_left() && event.get_other_event().map(|o| o.is_in_result()).unwrap_or(false))\n        })\n        .cloned()\n        .collect();\n')]),
+    B('ce-walk-match-inline', ['C02', 'C04', 'C01', 'C03', 'C12', 'C15'], [('lib/src/boolean/connect_edges.rs', '            let next_pos_opt = get_next_pos(pos, &processed, &iteration_map);\n            match next_pos_opt {', '            match get_next_pos(pos, &processed, &iteration_map) {')]),
+    B('ce-map_or-form', ['C02', 'C04', 'C01', 'C03', 'C12', 'C15'], [('lib/src/boolean/connect_edges.rs', 'event.get_other_event().map(|o| o.is_in_result()).unwrap_or(false))', 'event.get_other_event().map_or(false, |o| o.is_in_result()))')]),
+    B('ce-other-pos-two-lets', ['C02', 'C04', 'C01', 'C03', 'C12', 'C15'], [('lib/src/boolean/connect_edges.rs', '                let (a, b) = (event.get_other_pos(), other.get_other_pos());', '                let a = event.get_other_pos();\n                let b = other.get_other_pos();')]),
+    B('ce-outer-loop-usize', ['C02', 'C04', 'C01', 'C03', 'C12', 'C15'], [('lib/src/boolean/connect_edges.rs', '    for i in 0..(result_events.len() as i32) {\n        if processed.contains(&i) {', '    for i in 0..result_events.len() {\n        let i = i as i32;\n        if processed.contains(&i) {')]),
+    B('ce-init-early-return', ['C02', 'C04', 'C01', 'C03', 'C12', 'C15'], [('lib/src/boolean/connect_edges.rs', '        if let Some(prev_in_result) = event.get_prev_in_result() {', '        let prev_in_result = match event.get_prev_in_result() {\n            Some(prev_in_result) => prev_in_result,\n            // There is no lower/previous contour => this contour is an exterior contour of depth 0.\n            None => return Contour::new(None, 0),\n        };\n        {'), ('lib/src/boolean/connect_edges.rs', '        } else {\n            // There is no lower/previous contour => this contour is an exterior contour of depth 0.\n            Contour::new(None, 0)\n        }\n    }\n', '        }\n    }\n')]),
+    B('pp-bind-start-end', ['C04', 'C07', 'C13', 'C06', 'C09', 'C08', 'C03'], [('lib/src/boolean/fill_queue.rs', '        if line.start == line.end {\n            continue; // skip collapsed edges\n        }', '        let (start, end) = (line.start, line.end);\n        if start == end {\n            continue; // skip collapsed edges\n        }')]),
+    B('pp-left-flag-via-ref', ['C04', 'C07', 'C13', 'C06', 'C09', 'C08', 'C03'], [('lib/src/boolean/fill_queue.rs', '        if e1 < e2 {\n            e2.set_left(true)\n        } else {\n            e1.set_left(true)\n        }\n', '        let left = if e1 < e2 { &e2 } else { &e1 };\n        left.set_left(true);\n')]),
+    B('pp-bbox-before-events', ['C04', 'C07', 'C13', 'C06', 'C09', 'C08', 'C03'], [('lib/src/boolean/fill_queue.rs', '        bbox.min.x = bbox.min.x.min(line.start.x);\n        bbox.min.y = bbox.min.y.min(line.start.y);\n        bbox.max.x = bbox.max.x.max(line.start.x);\n        bbox.max.y = bbox.max.y.max(line.start.y);\n\n        event_queue.push(e1);', '        event_queue.push(e1);'), ('lib/src/boolean/fill_queue.rs', '        let e1 = SweepEvent::new_rc(contour_id, line.start, false, Weak::new(), is_subject, is_exterior_ring);', '        bbox.min.x = bbox.min.x.min(line.start.x);\n        bbox.min.y = bbox.min.y.min(line.start.y);\n        bbox.max.x = bbox.max.x.max(line.start.x);\n        bbox.max.y = bbox.max.y.max(line.start.y);\n\n        let e1 = SweepEvent::new_rc(contour_id, line.start, false, Weak::new(), is_subject, is_exterior_ring);')]),
+    B('pp-push-order', ['C04', 'C07', 'C13', 'C06', 'C09', 'C08', 'C03'], [('lib/src/boolean/fill_queue.rs', '        event_queue.push(e1);\n        event_queue.push(e2);', '        event_queue.push(e2);\n        event_queue.push(e1);')]),
+    B('pp-skip-by-filter', ['C04', 'C07', 'C13', 'C06', 'C09', 'C08', 'C03'], [('lib/src/boolean/fill_queue.rs', '    for line in contour_or_hole.lines() {\n        if line.start == line.end {\n            continue; // skip collapsed edges\n        }\n', '    for line in contour_or_hole.lines().filter(|line| line.start != line.end) {\n')]),
+    M('ce-filter-collect-dead-other-selected', ['C02', 'C04'], [('lib/src/boolean/connect_edges.rs', '    let mut result_events: Vec<Rc<SweepEvent<F>>> = Vec::new();\n\n    for event in sorted_events {\n        if (event.is_left() && event.is_in_result())\n            || (!event.is_left() && event.get_other_event().map(|o| o.is_in_result()).unwrap_or(false))\n        {\n            result_events.push(event.clone());\n        }\n    }\n', '    let mut result_events: Vec<Rc<SweepEvent<F>>> = sorted_events\n        .iter()\n        .filter(|event| {\n            (event.is_left() && event.is_in_result())\n                || (!event.is_left() && event.get_other_event().map(|o| o.is_in_result()).unwrap_or(true))\n        })\n        .cloned()\n        .collect();\n')], {'C02': 'T-result-events'}),
+    M('pp-filter-skips-vertical-edges', ['C04', 'C13'], [('lib/src/boolean/fill_queue.rs', '    for line in contour_or_hole.lines() {\n        if line.start == line.end {\n            continue; // skip collapsed edges\n        }\n', '    for line in contour_or_hole.lines().filter(|line| line.start.x != line.end.x) {\n')], {'C04': 'W-collapsed'}),
 ]
